@@ -13,28 +13,20 @@ variable {α : Type}
 
 /-! ## identity -/
 
-/-- An adaptee (other than the object `None`) whose type already provides the
-protocol is returned unchanged, and no factory is called. -/
+/-- An adaptee whose type already provides the protocol is returned unchanged — whatever
+it is, the object `None` included (repaired in /repo 4b42b24; finding F15) — and no factory
+is called; `supports_protocol` is True. -/
 theorem C17_identity (cfg : Cfg) (f : Factory α) (srcType : Nat) (adaptee : α) (target : Nat)
     (hasDefault : Bool) (hp : cfg.provides srcType target = true) :
-    adapt cfg f false srcType adaptee target hasDefault = (.self, []) ∧
-    supportsProtocol cfg f false srcType adaptee target = (.ok true, []) := by
+    adapt cfg f srcType adaptee target hasDefault = (.self, []) ∧
+    supportsProtocol cfg f srcType adaptee target = (.ok true, []) := by
   simp [adapt, supportsProtocol, hp]
 
-/-- Full strength: *every* adaptee.  False for the object `None` (finding F15). -/
-def C17_identity_full : Prop :=
-  ∀ (cfg : Cfg) (f : Factory Unit) (isNone : Bool) (srcType target : Nat) (hasDefault : Bool),
-    cfg.provides srcType target = true →
-    (adapt cfg f isNone srcType () target hasDefault).1 = .self
-
-/-- `adapt(None, object)` raises AdaptationError although `None` provides `object`. -/
-theorem C17_identity_fails_at : ¬ C17_identity_full := by
-  intro h
-  have := h ⟨fun _ _ => true, fun _ => [], []⟩ okFactory true 0 0 false rfl
-  simp [adapt, noneResult] at this
-
-example : (adapt (α := Unit) ⟨fun _ _ => true, fun _ => [], []⟩ okFactory true 0 () 0 false).1 =
-    .error .adaptationError := by decide
+-- `adapt(None, object)`: type 0 = NoneType provides protocol 0 = object; with or without a default
+example : adapt (α := Unit) ⟨fun _ _ => true, fun _ => [], []⟩ okFactory 0 () 0 false = (.self, []) ∧
+    adapt (α := Unit) ⟨fun _ _ => true, fun _ => [], []⟩ okFactory 0 () 0 true = (.self, []) ∧
+    supportsProtocol (α := Unit) ⟨fun _ _ => true, fun _ => [], []⟩ okFactory 0 () 0 = (.ok true, []) :=
+  ⟨rfl, rfl, rfl⟩
 
 /-! ## soundness -/
 
@@ -43,17 +35,15 @@ returns an adapter, the adaptee's type did not provide the protocol, the chain o
 offers used is applicable step by step, uses every offer at most once, ends at a
 protocol providing the target, and the adapter is what the chain's factories
 produced, each one having succeeded. -/
-theorem C17_sound {cfg : Cfg} {f : Factory α} {isNone : Bool} {srcType : Nat} {adaptee : α}
+theorem C17_sound {cfg : Cfg} {f : Factory α} {srcType : Nat} {adaptee : α}
     {target : Nat} {hasDefault : Bool} {path : List Offer} {a : α} {tr : List CallRec}
     (hh : Homogeneous cfg)
-    (h : adapt cfg f isNone srcType adaptee target hasDefault = (.adapted path a, tr)) :
+    (h : adapt cfg f srcType adaptee target hasDefault = (.adapted path a, tr)) :
     cfg.provides srcType target = false ∧ ValidChain cfg srcType target path ∧
       ∃ k, SucceedsFrom f k path adaptee a := by
   unfold adapt at h
   by_cases hp : cfg.provides srcType target = true
-  · simp only [hp, if_true] at h
-    cases isNone <;> simp [noneResult] at h
-    all_goals (split at h <;> simp at h)
+  · simp [hp] at h
   · have hp' : cfg.provides srcType target = false := by simpa using hp
     simp only [hp', Bool.false_eq_true, if_false] at h
     rcases hin : adaptInner cfg f srcType adaptee target with ⟨r, tr'⟩
@@ -79,7 +69,7 @@ protocols sharing a bucket, an offer is applied to a type that does not provide 
 def C17_sound_any_registry : Prop :=
   ∀ (cfg : Cfg) (f : Factory Unit) (srcType target : Nat) (path : List Offer) (a : Unit)
     (tr : List CallRec),
-    adapt cfg f false srcType () target false = (.adapted path a, tr) →
+    adapt cfg f srcType () target false = (.adapted path a, tr) →
     ValidChain cfg srcType target path
 
 theorem C17_sound_needs_homogeneous : ¬ C17_sound_any_registry := by
@@ -88,7 +78,7 @@ theorem C17_sound_needs_homogeneous : ¬ C17_sound_any_registry := by
   have := hv.applicable
   simp [Applicable, collideCfg, providesOf] at this
 
-example : adapt chainCfg (refusing [0]) false 3 () 2 false =
+example : adapt chainCfg (refusing [0]) 3 () 2 false =
     (.adapted [⟨1, 0, 1, 0⟩, ⟨2, 1, 2, 1⟩] (), [⟨0, .none⟩, ⟨1, .ok⟩, ⟨2, .ok⟩]) := by decide
 
 /-! ## completeness -/
@@ -140,11 +130,11 @@ theorem C17_complete {cfg : Cfg} {f : Factory α} {srcType : Nat} {adaptee : α}
       exact fuel_suffices cfg f srcType adaptee target (by rw [hin])
 
 /-- The same at the level of `adapt`: an adapter comes back iff a successful chain exists. -/
-theorem C17_complete_adapt {cfg : Cfg} {f : Factory α} {isNone : Bool} {srcType : Nat} {adaptee : α}
+theorem C17_complete_adapt {cfg : Cfg} {f : Factory α} {srcType : Nat} {adaptee : α}
     {target : Nat} {hasDefault : Bool}
     (hdet : Deterministic f) (hnr : NoRaise f) (hh : Homogeneous cfg)
     (hp : cfg.provides srcType target = false) :
-    (∃ path a, (adapt cfg f isNone srcType adaptee target hasDefault).1 = .adapted path a) ↔
+    (∃ path a, (adapt cfg f srcType adaptee target hasDefault).1 = .adapted path a) ↔
       ∃ chain a, ValidChain cfg srcType target chain ∧ SucceedsFrom f 0 chain adaptee a := by
   have hc := C17_complete (cfg := cfg) (f := f) (srcType := srcType) (adaptee := adaptee)
     (target := target) hdet hnr hh
@@ -320,12 +310,12 @@ example : WeakOn chainCfg (applicable chainCfg 3 []) := by
 
 /-- `_adapt` found nothing: `adapt` raises AdaptationError, or returns the supplied
 default; `supports_protocol` is False. -/
-theorem C17_default {cfg : Cfg} {f : Factory α} {isNone : Bool} {srcType : Nat} {adaptee : α}
+theorem C17_default {cfg : Cfg} {f : Factory α} {srcType : Nat} {adaptee : α}
     {target : Nat} (hp : cfg.provides srcType target = false)
     (hnf : (adaptInner cfg f srcType adaptee target).1 = .notFound) :
-    (adapt cfg f isNone srcType adaptee target false).1 = .error .adaptationError ∧
-    (adapt cfg f isNone srcType adaptee target true).1 = .default ∧
-    (supportsProtocol cfg f isNone srcType adaptee target).1 = .ok false := by
+    (adapt cfg f srcType adaptee target false).1 = .error .adaptationError ∧
+    (adapt cfg f srcType adaptee target true).1 = .default ∧
+    (supportsProtocol cfg f srcType adaptee target).1 = .ok false := by
   rcases hin : adaptInner cfg f srcType adaptee target with ⟨r, tr⟩
   rw [hin] at hnf
   simp only at hnf
@@ -333,35 +323,30 @@ theorem C17_default {cfg : Cfg} {f : Factory α} {isNone : Bool} {srcType : Nat}
   simp [adapt, supportsProtocol, hp, hin, noneResult]
 
 example : (adaptInner chainCfg (refusing [0, 2]) 3 () 2).1 = .notFound ∧
-    (adapt chainCfg (refusing [0, 2]) false 3 () 2 true).1 = .default ∧
-    (adapt chainCfg (refusing [0, 2]) false 3 () 2 false).1 = .error .adaptationError := by decide
+    (adapt chainCfg (refusing [0, 2]) 3 () 2 true).1 = .default ∧
+    (adapt chainCfg (refusing [0, 2]) 3 () 2 false).1 = .error .adaptationError := by decide
 
-/-- …and the default comes back in no other situation (apart from the `None`
-adaptee of F15). -/
-theorem C17_default_only {cfg : Cfg} {f : Factory α} {isNone : Bool} {srcType : Nat} {adaptee : α}
+/-- …and the default comes back in no other situation. -/
+theorem C17_default_only {cfg : Cfg} {f : Factory α} {srcType : Nat} {adaptee : α}
     {target : Nat} {hasDefault : Bool}
-    (h : (adapt cfg f isNone srcType adaptee target hasDefault).1 = .default) :
-    hasDefault = true ∧
-      ((cfg.provides srcType target = true ∧ isNone = true) ∨
-       (cfg.provides srcType target = false ∧
-        (adaptInner cfg f srcType adaptee target).1 = .notFound)) := by
+    (h : (adapt cfg f srcType adaptee target hasDefault).1 = .default) :
+    hasDefault = true ∧ cfg.provides srcType target = false ∧
+      (adaptInner cfg f srcType adaptee target).1 = .notFound := by
   unfold adapt at h
   by_cases hp : cfg.provides srcType target = true
-  · simp only [hp, if_true] at h
-    cases isNone <;> cases hasDefault <;> simp [noneResult] at h
-    exact ⟨rfl, Or.inl ⟨hp, rfl⟩⟩
+  · simp [hp] at h
   · have hp' : cfg.provides srcType target = false := by simpa using hp
     simp only [hp', Bool.false_eq_true, if_false] at h
     rcases hin : adaptInner cfg f srcType adaptee target with ⟨r, tr⟩
     rw [hin] at h
     cases r <;> cases hasDefault <;> simp [noneResult] at h
-    exact ⟨rfl, Or.inr ⟨hp', rfl⟩⟩
+    exact ⟨rfl, hp', rfl⟩
 
 /-! ## Supports / AdaptsTo / Instance(adapt=…) -/
 
 /-- The validator of an adapting trait, mode by mode, for a value whose `isinstance`
 agrees with `issubclass(type(value), klass)`:
-* `None` is decided by `allow_none` alone (modes 1, 2);
+* `None` is decided by `allow_none` alone, in every mode (it is never tested against the class);
 * mode 0 (`adapt='no'`) is the isinstance check, and `adapt` is not called;
 * modes 1 and 2 hand back exactly what `adapt(value, klass, None)` gives — the value
   itself if it provides the protocol, the adapter otherwise, the factory's exception
@@ -369,30 +354,33 @@ agrees with `issubclass(type(value), klass)`:
   default value (mode 2). -/
 theorem C17_supports (cfg : Cfg) (f : Factory α) (srcType : Nat) (adaptee : α) (target : Nat)
     (allowNone : Bool) (isInst : Bool) (ad : Out α) (mode : Nat) (hm : mode = 1 ∨ mode = 2) :
-    validateTrait mode allowNone true isInst ad = (if allowNone then .value else .error .traitError) ∧
+    (∀ m, validateTrait m allowNone true isInst ad = (if allowNone then .value else .error .traitError)) ∧
     validateTrait 0 allowNone false (cfg.provides srcType target) ad =
       (if cfg.provides srcType target then .value else .error .traitError) ∧
     validateCalls 0 false = false ∧
     validateTrait mode allowNone false (cfg.provides srcType target)
-        (adapt cfg f false srcType adaptee target true).1 =
-      (match (adapt cfg f false srcType adaptee target true).1 with
+        (adapt cfg f srcType adaptee target true).1 =
+      (match (adapt cfg f srcType adaptee target true).1 with
        | .self => .value
        | .adapted p a => .adapted p a
        | .error e => .error e
        | .default => if mode = 1 then .error .traitError else .default) := by
   refine ⟨?_, ?_, rfl, ?_⟩
-  · rcases hm with rfl | rfl <;> simp [validateTrait, validateAdapt]
+  · intro m
+    by_cases h0 : m = 0
+    · subst h0; cases allowNone <;> simp [validateTrait, validateInstance]
+    · simp [validateTrait, validateAdapt, h0]
   · simp [validateTrait, validateInstance]
   · by_cases hp : cfg.provides srcType target = true
     · rcases hm with rfl | rfl <;> simp [validateTrait, validateAdapt, adapt, hp]
     · have hp' : cfg.provides srcType target = false := by simpa using hp
       rcases hm with rfl | rfl <;>
         (simp only [validateTrait, validateAdapt, hp']
-         cases (adapt cfg f false srcType adaptee target true).1 <;> simp)
+         cases (adapt cfg f srcType adaptee target true).1 <;> simp)
 
-example : validateTrait 1 true false (chainCfg.provides 3 2) (adapt chainCfg (refusing [0]) false 3 () 2 true).1 =
+example : validateTrait 1 true false (chainCfg.provides 3 2) (adapt chainCfg (refusing [0]) 3 () 2 true).1 =
     .adapted [⟨1, 0, 1, 0⟩, ⟨2, 1, 2, 1⟩] () := by decide
-example : validateTrait 2 true false (chainCfg.provides 3 2) (adapt chainCfg (refusing [0, 2]) false 3 () 2 true).1 =
+example : validateTrait 2 true false (chainCfg.provides 3 2) (adapt chainCfg (refusing [0, 2]) 3 () 2 true).1 =
     .default := by decide
 
 /-- The C function's own fallback (`validate_trait_adapt`, ctraits.c:3966-3982): when
